@@ -76,6 +76,11 @@ pub fn pairs() -> Vec<(&'static str, &'static str, AnyR, AnyR)> {
         r.max_queueing_time_ms = 100;
     });
     fl("max_queueing_time_ms", thr.clone(), &|r| r.max_queueing_time_ms = 500);
+    // the pacing of a throttling rule is derived from threshold and statistic interval
+    fl("stat_interval_ms(throttling)", thr.clone(), &|r| r.stat_interval_ms = 5000);
+    fl("threshold(throttling)", thr.clone(), &|r| r.threshold = 11.0);
+    fl("threshold(warm-up)", warm.clone(), &|r| r.threshold = 120.0);
+    fl("stat_interval_ms(associated)", assoc.clone(), &|r| r.stat_interval_ms = 2000);
     let mem = fb(&|r| {
         r.calculate_strategy = flow::CalculateStrategy::MemoryAdaptive;
         r.low_mem_usage_threshold = 100;
@@ -87,6 +92,16 @@ pub fn pairs() -> Vec<(&'static str, &'static str, AnyR, AnyR)> {
     fl("high_mem_usage_threshold", mem.clone(), &|r| r.high_mem_usage_threshold = 20);
     fl("mem_low_water_mark", mem.clone(), &|r| r.mem_low_water_mark = 1500);
     fl("mem_high_water_mark", mem.clone(), &|r| r.mem_high_water_mark = 3000);
+    let memthr = fb(&|r| {
+        r.calculate_strategy = flow::CalculateStrategy::MemoryAdaptive;
+        r.control_strategy = flow::ControlStrategy::Throttling;
+        r.low_mem_usage_threshold = 100;
+        r.high_mem_usage_threshold = 10;
+        r.mem_low_water_mark = 1000;
+        r.mem_high_water_mark = 2000;
+        r.max_queueing_time_ms = 100;
+    });
+    fl("stat_interval_ms(memory-adaptive throttling)", memthr.clone(), &|r| r.stat_interval_ms = 5000);
     // ---- hotspot
     let hb = |f: &dyn Fn(&mut hotspot::Rule)| {
         let mut r = hotspot::Rule { id: "x".into(), resource: RES.into(), metric_type: hotspot::MetricType::QPS, control_strategy: hotspot::ControlStrategy::Reject, threshold: 10, burst_count: 1, duration_in_sec: 1, params_max_capacity: 100, ..Default::default() };
